@@ -118,6 +118,10 @@ fn main() {
         "C12" => props::c12::check(&ctx),
         "C13" => props::c13::check(&ctx),
         "C14" => props::c14::check(&ctx),
+        "C15" => props::c15::check(&ctx),
+        "C16" => props::c16::check(&ctx),
+        "C17" => props::c17::check(&ctx),
+        "C18" => props::c18::check(&ctx),
         _ => {
             eprintln!("unknown property {prop}");
             2
